@@ -41,7 +41,9 @@ class LangDB:
 
     def __init__(self, lang, pages):
         from mwlib.network.siteinfo import get_siteinfo
+        from mwlib.core import nshandling
         self.siteinfo = get_siteinfo(lang)
+        self.nshandler = nshandling.NsHandler(self.siteinfo)
         self.pages = {k.lower(): v for k, v in pages.items()}
 
     def normalize_and_get_page(self, title, defaultns=0):
@@ -53,6 +55,9 @@ class LangDB:
 
     def get_siteinfo(self):
         return self.siteinfo
+
+    def normalize_and_get_image_path(self, name):
+        return None
 
     def get_url(self, name, revision=None, defaultns=0):
         import urllib.parse
